@@ -163,6 +163,18 @@ def refine_vcs(ex, label, st0, body_outs, spec_outs):
             for c in s.st.env.get("__exist__", []):
                 if not any(c.eq(k) for k in ec):
                     ec.append(c)
+        if len(cands) > 1 and not ec and getattr(ex, "select_candidates", False):
+            # (opt-in per task) several contract outcomes of this kind: they are separated by their conditions; find the one whose
+            # condition this body path implies (cheap pre-check) and compare with that one component by component
+            for s in cands:
+                _, conds = split_defs(ex, s.st.pc, base)
+                sol = z3.Solver()
+                sol.add(ex.ctx.axioms)
+                sol.add(b.st.pc + spec_defs)
+                sol.add(z3.Not(z3.And(conds) if conds else z3.BoolVal(True)))
+                if hard_check(sol, int(os.environ.get("PYVC_SELECT_MS", "400"))) == z3.unsat:
+                    cands = [s]
+                    break
         if len(cands) == 1 and not ec:
             # the common case: one contract alternative of this kind -> one small VC per view component
             s = cands[0]
@@ -235,8 +247,93 @@ def hard_check(solver, timeout_ms):
         timer.cancel()
 
 
+def _tpl(parts, holes):
+    """the string  parts[0] holes[0] parts[1] ... holes[-1] parts[-1]  over z3's theory of strings"""
+    seq = []
+    for k, p in enumerate(parts):
+        if p:
+            seq.append(z3.StringVal(p))
+        if k < len(holes):
+            seq.append(holes[k])
+    if not seq:
+        return z3.StringVal("")
+    return seq[0] if len(seq) == 1 else z3.Concat(*seq)
+
+
+def strfact_goal(fact):
+    """the string fact behind an axiom over the uninterpreted Name sort, as a formula over real strings whose
+    validity (for all values of its free constants) is what the axiom claims.  Returns a list of goals."""
+    S = lambda n: z3.String(n)
+    kind = fact[0]
+    if kind == "inj":
+        x, y = S("x"), S("y")
+        return [z3.Implies(_tpl(fact[1], [x]) == _tpl(fact[1], [y]), x == y)]
+    if kind == "inj-last-given-rest":
+        parts = fact[1]
+        xs = [S(f"x{k}") for k in range(len(parts) - 1)]
+        y = S("y")
+        return [z3.Implies(_tpl(parts, xs) == _tpl(parts, xs[:-1] + [y]), xs[-1] == y),
+                z3.Implies(_tpl(parts, xs) == _tpl(parts, [y] + xs[1:]), xs[0] == y)]
+    if kind == "disj":
+        a, b = fact[1], fact[2]
+        xs = [S(f"x{k}") for k in range(len(a) - 1)]
+        ys = [S(f"y{k}") for k in range(len(b) - 1)]
+        return [_tpl(a, xs) != _tpl(b, ys)]
+    if kind == "lit":
+        lit, parts = fact[1], fact[2]
+        xs = [S(f"x{k}") for k in range(len(parts) - 1)]
+        return [_tpl(parts, xs) != z3.StringVal(lit)]
+    if kind == "assoc":
+        a, b = fact[1], fact[2]
+        xs = [S(f"x{k}") for k in range(len(a) - 1)]
+        ys = [S(f"y{k}") for k in range(len(b) - 1)]
+        lhs = _tpl(a, xs[:-1] + [_tpl(b, [xs[-1]] + ys[1:])])
+        rhs = _tpl(b, [_tpl(a, xs)] + ys[1:])
+        return [lhs == rhs]
+    raise ValueError(f"unknown string fact {fact!r}")
+
+
+def add_strfact_obligations(ctx, task):
+    """every string axiom the task's context introduced becomes an obligation over the theory of strings"""
+    seen = set()
+    for fact in list(ctx.strfacts):
+        key = repr(fact)
+        if key in seen:
+            continue
+        seen.add(key)
+        for k, goal in enumerate(strfact_goal(fact)):
+            ctx.oblige(f"{task}/strfact:{'|'.join(str(p) for p in fact)}#{k}", [], goal, "strfact")
+
+
+def solve_strfact(ob, t0):
+    s = z3.Solver()
+    s.add(z3.Not(ob["goal"]))
+    r = hard_check(s, 10000)
+    res = {"id": ob["id"], "kind": ob["kind"], "time": 0.0, "solver": "z3-5.1(api, strings)"}
+    if r == z3.unsat:
+        res["status"] = "discharged"
+    else:
+        res["status"] = "refuted" if r == z3.sat else "unknown"
+        res["detail"] = str(s.model())[:300] if r == z3.sat else s.reason_unknown()
+        if r != z3.sat:
+            try:
+                with tempfile.NamedTemporaryFile("w", suffix=".smt2", delete=False) as f:
+                    f.write("(set-logic QF_SLIA)\n" + s.to_smt2())
+                    path = f.name
+                p = subprocess.run(["/usr/bin/cvc5", "--strings-exp", "--tlimit=20000", "--lang=smt2", path], stdout=subprocess.PIPE, stderr=subprocess.PIPE, text=True, timeout=30)
+                os.unlink(path)
+                if p.stdout.strip().split("\n")[0] == "unsat":
+                    res["status"], res["solver"] = "discharged", "cvc5-1.0.3 --strings-exp"
+            except Exception:
+                pass
+    res["time"] = time.time() - t0
+    return res
+
+
 def solve(ctx, ob, timeout_ms=20000):
     t0 = time.time()
+    if ob["kind"] == "strfact":
+        return solve_strfact(ob, t0)
     s = z3.Solver()
     s.set(timeout=timeout_ms)
     if ob["kind"] == "frame-abs":
